@@ -1,6 +1,6 @@
 (* C06 - string length and pattern constraints are enforced exactly.
    Statements only; every proof is `exact <lemma>`; Print Assumptions under each. *)
-From GJS Require Import Base Regex Schema GoType Gen Exec Valid ExecP GenP CoreP.
+From GJS Require Import Base Regex Schema GoType Gen Exec Valid ExecP GenP CoreP Gen GenP MethodP LevelP.
 
 (* the emitted checks (len comparisons, regexp.MatchString) accept exactly the strings whose length
    lies in [minLength, maxLength] and that match the pattern - whenever byte length and character
@@ -76,3 +76,26 @@ Example C06_example :
     is_ok (dec (fun _ _ => true) [] 10 t (JObj [([115]%N, JStr [97]%N)])) = false /\
     is_ok (dec (fun _ _ => true) [] 10 t (JObj [([115]%N, JStr [97; 98; 99; 100]%N)])) = false.
 Proof. eexists. eexists. split; [vm_compute; reflexivity|]. vm_compute. repeat split; reflexivity. Qed.
+
+(* end to end, both directions: an object all of whose properties are constrained strings (no default, no enum, no format), declared by the
+   generator: a JSON object whose values are not null and whose strings are ASCII is accepted iff it is valid under the schema - every such
+   schema, every required set, every document *)
+Theorem C06_objects_exact : forall idf cf defs fmt_ok env sdefs f fd fv self sub s scope t b kv,
+  g_only_models cf = false -> scope <> [] ->
+  plain_object s -> c_types (s_con s) = [SObject] -> s_addl s = None -> s_addl_false s = false ->
+  (forall k p, In (k, p) (s_props s) -> str_leaf p) ->
+  NoDup (map fst (s_props s)) -> NoDup (map fst kv) ->
+  incl (c_required (s_con s)) (map fst (s_props s)) ->
+  NoDup (map fst (prop_names idf (s_props s))) -> (forall fname kp, In (fname, kp) (prop_names idf (s_props s)) -> fname <> []) ->
+  (forall k x, In (k, x) kv -> ascii_value x) ->
+  gen idf cf defs (S (S (S f))) MDeclared self sub s scope = Done (t, b) ->
+  is_ok (dec fmt_ok env (S (S (S fd))) t (JObj kv)) = valid fmt_ok sdefs (S (S fv)) s (JObj kv).
+Proof. exact string_object_exact. Qed.
+Print Assumptions C06_objects_exact.
+
+Theorem C06_objects_inhabited :
+  exists t b, gen (fun s => s) (mkCfg false false) [] 3 MDeclared None false LevelP.ex_schema [82]%N = Done (t, b) /\
+    is_ok (dec (fun _ _ => true) [] 3 t (JObj LevelP.ex_doc)) = valid (fun _ _ => true) [] 2 LevelP.ex_schema (JObj LevelP.ex_doc) /\
+    valid (fun _ _ => true) [] 2 LevelP.ex_schema (JObj LevelP.ex_doc) = true.
+Proof. exact string_object_inhabited. Qed.
+Print Assumptions C06_objects_inhabited.
